@@ -3,7 +3,7 @@
 (* Trace validation for ListenMux: decides whether recorded executions of  *)
 (* the real drpcmigrate.ListenMux are behaviours of ListenMux.tla.         *)
 (*                                                                         *)
-(* TraceLog is a sequence of traces; a trace is a sequence of              *)
+(* TraceLog is a set of traces [id |-> i, steps |-> <<...>>]; a step is     *)
 (* [stim |-> s, obs |-> o]: the director applied stimulus s while the      *)
 (* process was quiescent and observed o at the next quiescence.  Between   *)
 (* two stimuli the specification may take any internal steps; when none is *)
@@ -17,11 +17,13 @@ EXTENDS ListenMux
 CONSTANTS TraceLog,
           Project    \* TRUE: compare only what property C16 constrains (no Route result, no error values)
 
-VARIABLES ti, k
+VARIABLES tr,   \* the trace being validated (chosen once; kept in the state so that the log is evaluated only in Init)
+          k     \* number of steps matched so far
 
-tvars == <<vars, ti, k>>
+tvars == <<vars, tr, k>>
 
-Steps == TraceLog[ti]
+Steps == tr.steps
+ti == tr.id
 \* the observation reduced to what the property talks about: Run running/returned, per connection
 \* class / listener / acceptor / bytes / EOF, per Accept call blocked / connection / "an error"
 ObsP == [ run   |-> <<RunClass>>,
@@ -31,14 +33,14 @@ ObsP == [ run   |-> <<RunClass>>,
 
 Matched == IF k = 0 THEN TRUE ELSE (IF Project THEN ObsP ELSE Obs) = Steps[k].obs
 
-TInit == Init /\ ti \in 1..Len(TraceLog) /\ k = 0
+TInit == Init /\ tr \in TraceLog /\ k = 0
 
-TNext == \/ (Spont /\ UNCHANGED <<meta, ti, k>>)
+TNext == \/ (Spont /\ UNCHANGED <<meta, tr, k>>)
          \/ /\ Quiescent /\ Matched /\ k < Len(Steps)
             /\ Do(Steps[k + 1].stim)
             /\ (Steps[k + 1].stim.k # "incoming" => UNCHANGED pay)
             /\ k' = k + 1
-            /\ UNCHANGED <<lim, nstim, hist, ti>>
+            /\ UNCHANGED <<lim, nstim, hist, tr>>
 
 TSpec == TInit /\ [][TNext]_tvars
 
